@@ -203,6 +203,43 @@ def check(run):
         gens = [None] * len(reqs)
     else:
         gens = genlib.query_gen([dict(op="apply_overrides", lines=r["lines"], overrides=r["overrides"] + r["removes"], additional=r["additional"]) for r in reqs])
+    # the REGENERATED `_list_items` (with `parsed_sections` / `orphan_sections`; `C14_code_list_items` proves what it lists) on the same files, against the real function
+    if gen_ok:
+        from atsim.potentials.tools.potable._query_actions import _list_items
+        sub = cases[: run.n(60, 600)]
+        from atsim.potentials.tools.potable._query_actions import _item_value
+
+        def queries(secs):
+            return (["%s:%s" % (sec, k_) for sec, kvs in secs.items() for k_, v_ in kvs] +
+                    ["Pair:Zz-Zz", "Nope:x", "nocolon", "Variables:scale", "Variables:zz", ":x", "Tabulation:", "Table-Form:tab:x", "Table-Form:tab:q"])
+        lg = genlib.query_gen([dict(op="list_items", lines=lines_of(secs), queries=queries(secs)) for secs, _, _ in sub])
+        nlb = 0
+        for (secs, species, ops), a in zip(sub, lg):
+            text = render(secs)
+            try:
+                cp0 = ConfigParser(io.StringIO(text))
+                real = [[k_, v_] for k_, v_ in _list_items(cp0)]
+                rv = []
+                for q in queries(secs):
+                    try:
+                        rv.append(["ok", _item_value(cp0, q)])
+                    except ConfigurationException as e:
+                        rv.append(["error", "malformedOption" if "does not name an item" in str(e) else "missing"])
+                    except Exception as e:
+                        rv.append(["internal", type(e).__name__])
+            except Exception as e:
+                real, rv = "raised %s: %s" % (type(e).__name__, str(e)[:80]), None
+            run.traces += 1
+            run.dist["translator-validation/list_items+item_value"] += 1
+            if rv != a["values"]:
+                nlb += 1
+                if nlb <= 2:
+                    run.tie_broken("translator", "generated _item_value vs the real function", "file %r: %s" % (text[:400], [(q, x, y) for q, x, y in zip(queries(secs), rv or [], a["values"]) if x != y][:4]))
+            a = a["items"]
+            if real != a:
+                nlb += 1
+                if nlb <= 2:
+                    run.tie_broken("translator", "generated _list_items vs the real function", "file %r: real %s generated %s" % (text[:400], str(real)[:300], str(a)[:300]))
     counts = collections.Counter()
     for (secs, species, ops), mo, ge in zip(cases, models, gens):
         text = render(secs)
